@@ -1298,6 +1298,80 @@ func c07e(c *Ctx) {
 				}
 			}
 			c.Check(ok, "width-chain/word-by-runes", c.W.FuncPos(fn), "a word is measured rune by rune in the font asked for", why)
+			// ... the runes are those of the word without its control codes, and the sum starts at the
+			// width of the control codes (each code counted once, each ordinary character once)
+			if pcc := c.Fn("parser.FontConfig.processControlCodes"); pcc != nil {
+				okSplit, whySplit := false, "getWordPixelWidth does not split the word with processControlCodes"
+				for _, pc := range callsToIn(fn, pcc) {
+					okSplit, whySplit = true, ""
+					if pc.Common().Args[1] != ssa.Value(fn.Params[1]) || pc.Common().Args[2] != ssa.Value(fn.Params[2]) {
+						okSplit, whySplit = false, "processControlCodes is not given the word and the font that were asked for"
+					}
+					for _, ci := range calls {
+						ex, _ := ci.Common().Args[1].(*ssa.Extract)
+						if ex == nil {
+							continue
+						}
+						nx, _ := ex.Tuple.(*ssa.Next)
+						if nx == nil {
+							continue
+						}
+						rg, _ := nx.Iter.(*ssa.Range)
+						if rg == nil {
+							continue
+						}
+						src, isEx := rg.X.(*ssa.Extract)
+						if !isEx || src.Tuple != pc.(ssa.Value) || src.Index != 0 {
+							okSplit, whySplit = false, "the characters measured are those of "+pretty(c.term(fn, rg.X))+", not of the word with its control codes removed (a code's braces and letters would be measured as text on top of the code's own width)"
+						}
+					}
+				}
+				c.Check(okSplit, "width-chain/codes-apart", c.W.FuncPos(fn), "control codes are measured apart from the ordinary characters", whySplit)
+				// processControlCodes itself: every match of the code pattern is measured once, and the
+				// text handed back is the word with exactly those matches removed
+				okPcc, whyPcc := true, ""
+				var find, repl *ssa.Call
+				for _, ci := range callsIn(pcc) {
+					if cl, ok := ci.(*ssa.Call); ok {
+						switch calleeName(cl) {
+						case "(*regexp.Regexp).FindAllStringIndex", "(*regexp.Regexp).FindAllString":
+							find = cl
+						case "(*regexp.Regexp).ReplaceAllString":
+							repl = cl
+						}
+					}
+				}
+				if find == nil || repl == nil {
+					okPcc, whyPcc = false, "cannot find the pattern search and the pattern removal in processControlCodes"
+				} else {
+					if c.term(pcc, find.Call.Args[0]) != c.term(pcc, repl.Call.Args[0]) {
+						okPcc, whyPcc = false, "the codes that are measured and the codes that are removed are found with different patterns"
+					}
+					if find.Call.Args[1] != ssa.Value(pcc.Params[1]) || repl.Call.Args[1] != ssa.Value(pcc.Params[1]) {
+						okPcc, whyPcc = false, "the pattern is not applied to the word itself"
+					}
+					if k, isC := intConst(find.Call.Args[2]); !isC || k >= 0 {
+						okPcc, whyPcc = false, "not all matches are searched for"
+					}
+					if e, isC := strConst(repl.Call.Args[2]); !isC || e != "" {
+						okPcc, whyPcc = false, "the codes are replaced by something instead of being removed"
+					}
+					if gcc := c.Fn("parser.FontConfig.getControlCodePixelWidth"); gcc != nil {
+						mcalls := callsToIn(pcc, gcc)
+						if len(mcalls) != 1 {
+							okPcc, whyPcc = false, fmt.Sprintf("found %d calls that measure a control code, expected 1 (in the loop over the matches)", len(mcalls))
+						} else {
+							if _, skip := loopSkip(pcc, mcalls[0].(ssa.Instruction)); skip || loopHeaders(pcc)[mcalls[0].Block()] == nil {
+								okPcc, whyPcc = false, "not every match of the code pattern is measured"
+							}
+							if mcalls[0].Common().Args[2] != ssa.Value(pcc.Params[2]) {
+								okPcc, whyPcc = false, "control codes are measured in another font than the one asked for"
+							}
+						}
+					}
+				}
+				c.Check(okPcc, "width-chain/control-codes-found-and-removed", c.W.FuncPos(pcc), "every control code of the word is measured once and removed from the text that is measured by characters", whyPcc)
+			}
 		}
 	}
 	// (ii) cursor room
